@@ -7,6 +7,7 @@ from . import c05, c07
 TRACE = "CancelObsTrace"
 LAYERS = [
     {"t": "map", "fn": "tag"}, {"t": "map", "efn": "tag"}, {"t": "flat_map", "fn": "tag"},
+    {"t": "flat_map", "fn": "later"}, {"t": "flat_map", "fn": "later", "fn_dur": 30},
     {"t": "retry", "max": 3, "sleep": 200}, {"t": "retry", "max": 2, "sleep": 100}, {"t": "poll", "mode": "second"},
     {"t": "throttle", "count": 1}, {"t": "throttle", "count": 2}, {"t": "timeout", "T": 100000}, {"t": "cos"},
 ]
@@ -19,7 +20,7 @@ def gen(rng, i):
     subs = []
     for j in range(n):
         dur = rng.choice([0, 50, 150, 150])
-        ks = sorted(rng.sample([0, 1, 10, 49, 50, 51, 100, 149, 150, 151, 200, 250, 351, 400, 700], rng.choice([1, 1, 2, 3])))
+        ks = sorted(rng.sample([0, 1, 10, 49, 50, 51, 60, 100, 149, 150, 151, 160, 170, 200, 250, 351, 400, 700], rng.choice([1, 1, 2, 3])))
         subs.append({"S": rng.choice([0, 0, 10]), "script": rng.choice([["V"], ["E", "V"], ["E", "E", "E"], ["E", "F"]]),
                      "dur": dur, "thread": j % rng.choice([1, 2]), "K": ks, "cb": rng.random() < 0.3})
     return {"base": rng.choice(["pool", "pool", "sync"]), "workers": rng.choice([1, 1, 2]), "layers": layers, "subs": subs,
